@@ -108,7 +108,9 @@ def strategy():
     return st.fixed_dictionaries({
         'mode': st.integers(0, 1),
         'handlers': st.lists(st.integers(0, 7), min_size=2, max_size=6),     # 0: a handler listening to nothing
-        'ops': worldops.chunked(op, 36)})
+        'ops': worldops.chunked(op, 36),
+        # scale: 0, or how many times every (direct) dispatch of the history is repeated
+        'amp': worldops.size_amp(none=44)})
 
 
 class Run:
@@ -285,6 +287,15 @@ class Run:
         self.op_dispatch(evsel, psel, deferred=True)
 
     def op_dispatch(self, evsel, psel, deferred=False):
+        if self.case.get('amp') and not deferred and not getattr(self, '_bulk', False):
+            # a hot event: the same dispatch many times over (every repetition judged like any dispatch)
+            self._bulk = True
+            try:
+                for _ in range(self.case['amp'] - 1):
+                    self.op_dispatch(evsel, psel)
+            finally:
+                self._bulk = False
+            self.flags['hot_event'] += 1
         ev = EVENTS[evsel % 3]
         if evsel < 12:      # prefer events with several (else some) live registered listeners
             cnt = {e: sum(1 for k in range(self.n) if self.registered[k] and self.alive(k)
